@@ -3,6 +3,7 @@
   requested afterwards (no rule object is shared between cached rulesets).
 -/
 import ASV.Spec.Rulesets
+import ASV.Proofs.Parser.Prefix
 import ASV.Proofs.Parser.Basic
 namespace ASV.Rulesets
 open ASV ASV.Parser
@@ -325,5 +326,52 @@ theorem checkOptions_bad (parsed : String → Except Err (List Rule)) (allCats :
     | ok v =>
       rw [hg] at h
       simp [pure, Except.pure] at h
+
+/-- the file lists of two levels: one is the front of the other -/
+theorem ruleFilesFor_chain : ∀ (levels : List (String × String)) (a b : String) (fa fb : List String),
+    ruleFilesFor levels a = some fa → ruleFilesFor levels b = some fb → fa <+: fb ∨ fb <+: fa := by
+  intro levels
+  induction levels with
+  | nil => intro a b fa fb h; cases h
+  | cons p rest ih =>
+    obtain ⟨l, f⟩ := p
+    intro a b fa fb ha hb
+    simp only [ruleFilesFor] at ha hb
+    split at ha
+    · cases ha
+      split at hb
+      · cases hb; exact Or.inl (List.prefix_refl _)
+      · cases hr : ruleFilesFor rest b with
+        | none => rw [hr] at hb; cases hb
+        | some r => rw [hr] at hb; cases hb; exact Or.inl ⟨r, rfl⟩
+    · cases hra : ruleFilesFor rest a with
+      | none => rw [hra] at ha; cases ha
+      | some ra =>
+        rw [hra] at ha; cases ha
+        split at hb
+        · cases hb; exact Or.inr ⟨ra, rfl⟩
+        · cases hrb : ruleFilesFor rest b with
+          | none => rw [hrb] at hb; cases hb
+          | some rb =>
+            rw [hrb] at hb; cases hb
+            rcases ih a b ra rb hra hrb with h | h
+            · exact Or.inl (List.cons_prefix_cons.mpr ⟨rfl, h⟩)
+            · exact Or.inr (List.cons_prefix_cons.mpr ⟨rfl, h⟩)
+
+/-- the requested level's own file is the last one -/
+theorem ruleFilesFor_ne_nil : ∀ (levels : List (String × String)) (a : String) (fa : List String),
+    ruleFilesFor levels a = some fa → fa ≠ [] := by
+  intro levels
+  induction levels with
+  | nil => intro a fa h; cases h
+  | cons p rest ih =>
+    obtain ⟨l, f⟩ := p
+    intro a fa h
+    simp only [ruleFilesFor] at h
+    split at h
+    · cases h; simp
+    · cases hr : ruleFilesFor rest a with
+      | none => rw [hr] at h; cases h
+      | some r => rw [hr] at h; cases h; simp
 
 end ASV.Rulesets
